@@ -89,3 +89,34 @@ pub open spec fn spec_reason(s: Seq<u8>, i: int) -> SRes<(int, int, bool)> {
         SRes::Err(e) => SRes::Err(e),
     }
 }
+
+// ---- the 8-byte compare of parse_version agrees with byte-wise matching (little-endian decoding is injective)
+pub proof fn lemma_le64_injective(a: Seq<u8>, b: Seq<u8>)
+    requires a.len() == 8, b.len() == 8, le64(a) == le64(b),
+    ensures a == b
+{
+    vstd::bytes::lemma_auto_spec_u64_to_from_le_bytes();
+    assert(vstd::bytes::spec_u64_to_le_bytes(le64(a)) == a);
+    assert(vstd::bytes::spec_u64_to_le_bytes(le64(b)) == b);
+}
+pub open spec fn lit10() -> Seq<u8> { seq![0x48u8, 0x54, 0x54, 0x50, 0x2f, 0x31, 0x2e, 0x30] }
+pub open spec fn lit11() -> Seq<u8> { seq![0x48u8, 0x54, 0x54, 0x50, 0x2f, 0x31, 0x2e, 0x31] }
+pub proof fn lemma_version_word(w: Seq<u8>)
+    requires w.len() == 8,
+    ensures
+        le64(w) == le64(lit10()) <==> w == lit10(),
+        le64(w) == le64(lit11()) <==> w == lit11(),
+        w == lit10() <==> (forall|k: int| 0 <= k < 7 ==> #[trigger] w[k] == http1_lit()[k]) && w[7] == 0x30,
+        w == lit11() <==> (forall|k: int| 0 <= k < 7 ==> #[trigger] w[k] == http1_lit()[k]) && w[7] == 0x31,
+{
+    if le64(w) == le64(lit10()) { lemma_le64_injective(w, lit10()); }
+    if le64(w) == le64(lit11()) { lemma_le64_injective(w, lit11()); }
+    if (forall|k: int| 0 <= k < 7 ==> #[trigger] w[k] == http1_lit()[k]) && w[7] == 0x30 {
+        assert(w[0] == http1_lit()[0] && w[1] == http1_lit()[1] && w[2] == http1_lit()[2] && w[3] == http1_lit()[3] && w[4] == http1_lit()[4] && w[5] == http1_lit()[5] && w[6] == http1_lit()[6]);
+        assert(w =~= lit10());
+    }
+    if (forall|k: int| 0 <= k < 7 ==> #[trigger] w[k] == http1_lit()[k]) && w[7] == 0x31 {
+        assert(w[0] == http1_lit()[0] && w[1] == http1_lit()[1] && w[2] == http1_lit()[2] && w[3] == http1_lit()[3] && w[4] == http1_lit()[4] && w[5] == http1_lit()[5] && w[6] == http1_lit()[6]);
+        assert(w =~= lit11());
+    }
+}
